@@ -9,11 +9,14 @@
      in_extent a x y           (x, y) lies in the closed area extent;  in_extent_widened a e: extent grown by e pixels
      valid_cell a r c          0 <= r < height, 0 <= c < width
      off_border a x y          x is on no column border line and y on no row border line
-     fits_int32 a              width, height <= 2^31 (indices are int32 in grid / GridFilter)                       *)
+     fits_int32 a              width, height <= 2^31 (indices are int32 in grid / GridFilter)
+     ufrac a x / vfrac a y     (x - xmin) / pixel_size_x, (ymax - y) / pixel_size_y: position in pixels from the left / top edge
+                               (between (cell_x a p) (cell_x a q) x <-> p <= ufrac a x <= q, lemma between_x; same for y)
+     in_cell_or_band a e r c   per axis: in the closed cell, or c = 0 and -e <= ufrac < 0, or c = width-1 and width < ufrac <= width+e *)
 From Coq Require Import Reals ZArith Lra Lia Bool PrimFloat.
 From Flocq Require Import Raux Generic_fmt Round_NE.
-From PR Require Import Base.Num Base.RNum Base.F64 Model.Grid Model.CellIndex Model.C18_run
-     Proofs.Grid_real Proofs.C18_axis Proofs.C18_real.
+From PR Require Import Base.Num Base.RNum Base.F64 Model.Grid Model.CellIndex Model.C18_run Gen.GenC18
+     Proofs.Grid_real Proofs.C18_axis Proofs.C18_real Proofs.C18_gen.
 Open Scope R_scope.
 
 (* a concrete area used by the non-vacuity examples: extent (0, 0, 8, 4), 8 x 4 cells of size 1 *)
@@ -95,6 +98,15 @@ Print Assumptions C18_bucket_outside_is_none.
 (* ------------------------------------------------------------------ AreaDefinition.get_array_indices_from_lonlat /
    _from_projection_coordinates (masked_ints).  eps = 0.02 pixel (the binary64 literal): an unmasked index means the
    point is in the closed cell, or within eps pixels outside the extent right next to that (edge) cell. *)
+(* tie to the source: the fractional coordinates masked_ints works on are those of
+   get_array_coordinates_from_projection_coordinates + _get_corner_and_scale as regenerated from geometry.py *)
+Theorem C18_area_index_uses_source_coordinates : forall a x y, wf_area a ->
+  area_cell RO a x y =
+  (let '(cf, rf) := gen_array_coordinates_from_projection_coordinates RO a x y in
+   if mi_mask RO (width a) cf || mi_mask RO (height a) rf then None
+   else Some (mi_index RO (height a) rf, mi_index RO (width a) cf)).
+Proof. exact area_cell_of_source. Qed.
+Print Assumptions C18_area_index_uses_source_coordinates.
 Theorem C18_area_eps_value : 0 < eps_mi RO /\ eps_mi RO < 2 / 100 + / 1000000000000000.
 Proof. exact eps_bounds. Qed.
 Theorem C18_area_cell_implies_extent_or_eps_band : forall a x y r c, wf_area a -> fits_int32 a ->
